@@ -25,9 +25,17 @@ def gen(rng, i):
         n = re.escape(rng.choice(names))
         regex = rng.choice([n, "^" + n, n + ";", n + "$", n + ";$", "^" + n + ";$", n[: max(1, len(n) // 2)], ".*", ";", "^$", n + "|zzz"])
         cfg = pl.UNIFORM[rng.choice(["a8w8", "a16w8", "a8sw8t", "a8w4", "drq8", "wo8"])]
-        op = rng.choice(["*", "*", "FULLY_CONNECTED", "ADD", "TANH", "INPUT", "OUTPUT", "RESHAPE", "CONCATENATION"])
+        present = sorted({k for sg in info["subgraphs"] for k in sg["ops"] if k in gm.Grower.SUPPORTED})
+        op = rng.choice(["*", "*", "*", "INPUT", "OUTPUT", "FULLY_CONNECTED"] + present + present)   # op-specific rules for what the model holds
         cmds.append({"k": "add", "regex": regex, "operation": op, "cfg": cfg, "alg": "min_max_uniform_quantize"})
-    return fp.Case(mb, info, cmds=cmds, data=data, desc=[(c["regex"], c["operation"]) for c in cmds])
+    if rng.random() < 0.3:
+        # the object first lives with rules that need no calibration and is used (need_calibration gets evaluated, quantize() runs);
+        # the static-range rules come afterwards
+        first = {"k": "add", "regex": ".*", "operation": rng.choice(["*", "FULLY_CONNECTED"]), "cfg": pl.UNIFORM[rng.choice(["drq8", "wo8", "drq4"])],
+                 "alg": "min_max_uniform_quantize"}
+        cmds = [first, {"k": "quantize"}] + cmds
+        info["tags"].add("upgraded_from_no_calibration")
+    return fp.Case(mb, info, cmds=cmds, data=data, desc=[(c.get("regex"), c.get("operation") or c.get("k")) for c in cmds])
 
 
 def selection_oracle(ctx, case, q):
@@ -77,6 +85,8 @@ def run(ctx):
         if not q.get_quantization_recipe():
             continue
         ctx.case({"ops": [sg["ops"] for sg in case.info["subgraphs"]], "recipe": case.desc}, True)
+        for t in case.info["tags"]:
+            ctx.tag(t)
         selection_oracle(ctx, case, q)
         cr = None
         try:
